@@ -232,6 +232,18 @@ Fixpoint str_lits (l : list expr) : option (list string) :=
   | StrV s :: r => match str_lits r with Some ss => Some (s :: ss) | None => None end
   | _ => None
   end.
+(* the parts of a json path: a string literal is a key, a bare number (Raw digits, printed for an [n] part) an array index;
+   the oracle json_get receives an index part as the byte 0 followed by the digits and a key that begins with the byte 0
+   with that byte doubled, as LogqlPlan.json_part reads them *)
+Definition key_lit (s : string) : string :=
+  match s with String c _ => if Ascii.eqb c "000"%char then String "000"%char s else s | EmptyString => s end.
+Fixpoint path_lits (l : list expr) : option (list string) :=
+  match l with
+  | [] => Some []
+  | StrV s :: r => match path_lits r with Some ss => Some (key_lit s :: ss) | None => None end
+  | Raw d :: r => match path_lits r with Some ss => Some (String "000"%char d :: ss) | None => None end
+  | _ => None
+  end.
 (* mapDropFilter's lambda  (k,v) -> k!='a' and (k, v)!=('b', 'x') ... : the pairs it removes *)
 Fixpoint drop_specs (cl : list expr) : option (list (string * option string)) :=
   match cl with
@@ -503,7 +515,7 @@ Section EVAL.
           | Sep sep [Fn jt [doc; Sep sep3 path]; StrV t], Fn f1 [doc1; Sep sep4 path1], Fn f2 [doc2; Sep sep5 path2] =>
             if String.eqb sep " == " && String.eqb jt "JSONType" && String.eqb sep3 "," && String.eqb sep4 "," && String.eqb sep5 ","
                && String.eqb t "String" && String.eqb f1 "JSONExtractString" && String.eqb f2 "JSONExtractRaw" then
-              match ev doc g, str_lits path, ev doc1 g, str_lits path1, ev doc2 g, str_lits path2 with
+              match ev doc g, path_lits path, ev doc1 g, path_lits path1, ev doc2 g, path_lits path2 with
               | Some (VStr s), Some p, Some (VStr s1), Some p1, Some (VStr s2), Some p2 =>
                 if String.eqb s s1 && String.eqb s s2 && strs_eqb p p1 && strs_eqb p p2 then Some (VStr (json_get s p)) else None
               | _, _, _, _, _, _ => None end
